@@ -558,7 +558,15 @@ impl VisitMut for Marker {
                         let ne: Expr = parse_quote!(#it.#m());
                         f.expr = Box::new(ne);
                     } else if let Ok(fp) = parse_str::<syn::Path>(fname) {
-                        let it = &f.expr;
+                        // `for x in M.iter()` and `for x in M` (M a reference) are the same iteration: the wrapper gets M in both
+                        // forms (a field place gets a `&`), so that either spelling of the loop is read alike
+                        let it: Expr = match &*f.expr {
+                            Expr::MethodCall(mc) if mc.method == "iter" && mc.args.is_empty() => match &*mc.receiver {
+                                Expr::Field(fe) => { let fe = fe.clone(); parse_quote!(&#fe) }
+                                other => other.clone(),
+                            },
+                            other => other.clone(),
+                        };
                         let ne: Expr = parse_quote!(#fp(#it));
                         f.expr = Box::new(ne);
                     }
@@ -722,6 +730,28 @@ fn eliminate_continue(stmts: &[Stmt]) -> Option<Vec<Stmt>> {
                         return Some(out);
                     }
                 }
+            }
+        }
+        // `if A { INNER }` (no else) with a `continue` somewhere inside INNER: falling off the end of INNER goes on with REST, so
+        //   S1; if A { INNER } REST      becomes      S1; if A { elim(INNER ++ REST) } else { elim(REST) }
+        if let Stmt::Expr(Expr::If(ei), _) = &stmts[i] {
+            if ei.else_branch.is_none() && stmts_have_continue(&ei.then_branch.stmts) {
+                if stmts_have_continue(&stmts[..i]) { return None; }
+                let rest = &stmts[i + 1..];
+                let mut inner: Vec<Stmt> = ei.then_branch.stmts.clone();
+                // a trailing expression of INNER becomes a statement before REST is appended
+                if let Some(Stmt::Expr(e, None)) = inner.last().cloned() {
+                    let l = inner.len();
+                    inner[l - 1] = Stmt::Expr(e, Some(Default::default()));
+                }
+                inner.extend(rest.iter().cloned());
+                let then2 = eliminate_continue(&inner)?;
+                let rest2: Vec<Stmt> = if stmts_have_continue(rest) { eliminate_continue(rest)? } else { rest.to_vec() };
+                let cond = &ei.cond;
+                let new_if: Expr = parse_quote!(if #cond { #(#then2)* } else { #(#rest2)* });
+                let mut out = stmts[..i].to_vec();
+                out.push(Stmt::Expr(new_if, None));
+                return Some(out);
             }
         }
         if stmts_have_continue(&stmts[i..=i]) { return None; }
